@@ -225,8 +225,17 @@ def ok_exits(body):
     return blocks_assigning_variant(body, "std::result::Result", "Ok")
 
 
-def render_n(e):
-    """render with parameters named by position (for twin comparison)"""
+def callsite_ordinals(body):
+    """callee path -> {bb: ordinal} for callees called from more than one site of `body`"""
+    by = {}
+    for i, t in body.calls():
+        by.setdefault(t["callee"]["path"], []).append(i)
+    return {p: {bb: k + 1 for k, bb in enumerate(sorted(bbs))} for p, bbs in by.items() if len(bbs) > 1}
+
+
+def render_n(e, ords=None):
+    """render with parameters named by position (for twin comparison); `ords` (from callsite_ordinals)
+    distinguishes several call sites of the same callee as f#1, f#2 .."""
     from analysis.sym import render as _r
     def norm(x):
         if x[0] == "arg":
@@ -240,7 +249,10 @@ def render_n(e):
         if x[0] in ("index", "discr"):
             return (x[0], norm(x[1]))
         if x[0] == "call":
-            return ("call", x[1], tuple(norm(a) for a in x[2]), 0)
+            nm = x[1]
+            if ords and nm in ords and len(x) > 3 and x[3] in ords[nm]:
+                nm = "%s#%d" % (nm, ords[nm][x[3]])
+            return ("call", nm, tuple(norm(a) for a in x[2]), 0)
         if x[0] == "bin":
             return ("bin", x[1], norm(x[2]), norm(x[3]))
         if x[0] in ("un", "cast"):
@@ -254,7 +266,9 @@ def render_n(e):
 def value_rows(body, sym, facts, local, depth=2, fmt=None):
     """Decision rows for the value of `local`: list of (sorted guard texts, value text).  Multiply-defined
     locals feeding the value are expanded per definition (cross product), to `depth` levels."""
-    fmt = fmt or render_n
+    ords = callsite_ordinals(body)
+    if fmt is None:
+        fmt = lambda z: render_n(z, ords)
     rows = []
     defs = body.defs_of(local)
     live = body.live_blocks()
@@ -280,19 +294,19 @@ def value_rows(body, sym, facts, local, depth=2, fmt=None):
             for g2, v2 in value_rows(body, sym, facts, l2, depth - 1, fmt=lambda z: z):
                 # only combinations whose definitions can reach this use
                 vv = _subst(v, ("local", l2), v2)
-                out.append((sorted(set(_gtexts(fs, fmt) + g2)), vv))
+                out.append((sorted(set(_gtexts(fs, fmt, ords) + g2)), vv))
         else:
-            out.append((sorted(set(_gtexts(fs, fmt))), v))
+            out.append((sorted(set(_gtexts(fs, fmt, ords))), v))
     if fmt is not None and depth == 2:
         return [(g, fmt(v) if not isinstance(v, str) else v) for g, v in out]
     return out
 
 
-def _gtexts(fs, fmt):
+def _gtexts(fs, fmt, ords=None):
     out = []
     for f in fs:
         try:
-            out.append("%s is %s" % (render_n(f["expr"]), f["val"]))
+            out.append("%s is %s" % (render_n(f["expr"], ords), f["val"]))
         except Exception:
             out.append(f["text"])
     return out
